@@ -15,8 +15,8 @@ PY_TARGET = "PyLibSd PySrcSdBase PySrcSdTarget PySrcSdTargetFacts"   # _sd_algor
 PY_CORE = "PyLibCore PySrcCore PySrcCoreFacts"                    # succession_diagram.py: _update_node_depth, _ensure_edge, _ensure_node, _expand_one_node, node_successors, node_is_minimal, __len__, root
 PY_CORE2 = PY_CORE + " PyLibCore2 PySrcCore2 PySrcCore2Facts"    # succession_diagram.py: skip_to_minimal, skip_remaining, depth, reclaim_node_data
 PY_MIN = "PyLib PyLibSd PyLibCore PyLibSd2 PySrcSdBase PySrcSdMin PySrcSdMinFacts"   # _sd_algorithms/expand_minimal_spaces.py
-EXTRA_IMPORTS = {"C02": PY_SD + " " + PY_CORE, "C03": PY_SD + " " + PY_MIN, "C04": PY_SD + " " + PY_CORE, "C05": PY_CORE2 + " " + PY_MIN, "C14": PY_CORE2,
-                 "C06": PY_SPACE + " " + PY_TARGET, "C10": PY_PLACE, "C20": PY_KEY + " " + PY_CORE2}
+EXTRA_IMPORTS = {"C02": PY_SD + " " + PY_CORE, "C03": PY_SD + " " + PY_MIN, "C04": PY_SD + " " + PY_CORE, "C05": PY_CORE2 + " " + PY_MIN, "C14": PY_CORE2, "C15": PY_SD + " " + PY_TARGET + " " + PY_MIN,
+                 "C06": PY_SPACE + " " + PY_TARGET, "C10": PY_PLACE, "C19": PY_SD + " " + PY_CORE, "C20": PY_KEY + " " + PY_CORE2}
 
 def imports_for(pid):
     extra = EXTRA_IMPORTS.get(pid)
@@ -428,7 +428,9 @@ Model: Diagram.step returns the diagram together with its result, whatever the r
 RRaised ..., RBool true): all invariants below are stated for fst (step ...) WITHOUT any hypothesis on the
 result, so they hold at every early stop and every raised limit error.  Resumption: from any such state an
 unrestricted BFS/DFS completes to a Hierarchy (bfs_complete / dfs_complete).""",
- theorems=[("step_SWF", "step_SWF", None), ("step_Faithful_all", "step_Faithful_all", None), ("step_NoStubEdges", "step_NoStubEdges", None),
+ theorems=[("source_expand_to_target", "py_expand_to_target_spec_all", "translator tie: the limit handling of the strategy drivers as written in the source (expand_to_target, expand_bfs, expand_dfs, expand_minimal_spaces) is the model's"),
+           ("source_expand_bfs", "py_expand_bfs_spec_all", None), ("source_expand_dfs", "py_expand_dfs_spec_all", None), ("source_expand_minimal_spaces", "py_expand_minimal_spaces_spec", None),
+           ("step_SWF", "step_SWF", None), ("step_Faithful_all", "step_Faithful_all", None), ("step_NoStubEdges", "step_NoStubEdges", None),
            ("step_CacheOK", "step_CacheOK", None), ("step_extends", "step_extends", "nothing is ever removed or renumbered"),
            ("expand_one_raise_unchanged", "expand_one_raise_unchanged", None), ("bfs_complete", "bfs_complete", "True from an unrestricted BFS means everything is expanded"),
            ("dfs_complete", "dfs_complete", None), ("block_expansion_any_result", "expand_block_SWF", "also for block expansion, whatever it returns"),
@@ -515,7 +517,9 @@ theorems below are the order-independence facts behind the places where the code
 sets or solver output.  PARTIAL: independence from the interpreter's hash seed and from other diagrams in
 the process is runtime behaviour, decided by re-running every case under several PYTHONHASHSEED values in
 fresh and in warm processes and comparing complete dumps.""",
- theorems=[("percolation_order_independent", "percolation_unique", None), ("strict_order_independent", "strict_order_independent", "iteration over the Python candidate set"), ("strict_fuel", "strict_loop_fuel_enough", None),
+ theorems=[("source_expand_one_node_is_a_function_of_the_diagram", "py_expand_one_node_spec", "translator tie: the text of _expand_one_node (which sorts the solver answer by space_unique_key before creating nodes) computes the model's expand_one, a function of the network, the configuration and the diagram only: node ids, edges and motif order cannot depend on hash seeds or on other diagrams"),
+           ("source_expand_bfs_is_a_function_of_the_diagram", "py_expand_bfs_spec_all", "... likewise the traversal order of expand_bfs / expand_dfs (successors are sorted)"), ("source_expand_dfs_is_a_function_of_the_diagram", "py_expand_dfs_spec_all", None),
+           ("percolation_order_independent", "percolation_unique", None), ("strict_order_independent", "strict_order_independent", "iteration over the Python candidate set"), ("strict_fuel", "strict_loop_fuel_enough", None),
            ("sort_by_key_perm", "sort_by_key_perm", "solver output is sorted by key before node ids are assigned"),
            ("space_key_inj", "space_key_inj", "the key determines the space"), ("find_node_exact", "find_node_exact", None)],
  examples="")
